@@ -72,7 +72,7 @@ pub open spec fn keepalive_due(c: &SrtlaConnection, now: u64) -> bool {
 
 
 def _reopen(text):
-    m = re.search(r'let sock = create_uplink_socket\(conn\.local_ip\)\?;', text)
+    m = re.search(r'let sock = create_uplink_socket\([\w\.]+\)\?;', text)
     e = re.search(r'io\.socket = Arc::new\(BatchUdpSocket::new\(sock\)\?\);', text)
     if not m or not e:
         return text
@@ -81,6 +81,10 @@ def _reopen(text):
 
 def build():
     u = world.build('hk', active=['hk'])
+    # the stub of check_probing_complete assumes it never touches the REG1/REG2 handshake slots: audited against the source on every run
+    u.audit('crates/srtla-core/src/registration/probing.rs', 'check_probing_complete', impl='SrtlaRegistrationManager', sig=['&mut self'],
+            forbid=[r'self\.(pending_reg2_idx|srtla_id|broadcast_reg2_pending|active_connections|has_connected)\s*(=[^=]|\+=|-=|\|=|&=)', r'self\.srtla_id\.\w+\(',
+                    r'self\.(handle_reg\w*|reg_driver_pending_sends|reg1_if_ngp_immediate|build_reg1_for|update_active_connections)\('])
     regunit.add_reg(u)
     u.use('use std::net::SocketAddr;')
     u.add(u.item('crates/srtla-core/src/connection/incoming.rs', 'struct', 'SrtlaIncoming'))
